@@ -30,7 +30,7 @@ ASSUMPTIONS = ["a message 'that is not a decodable SD notification' = wrong serv
                "code, or SD payload the decoder rejects",
                "for unicast-flag-clear messages only the foreign sender's own session entry may differ between twins"]
 FLOORS = {"quick": {"decoder_outcomes_checked": 50000, "class_parse": 10000, "class_ok": 10000, "class_unicode": 150,
-                    "step_counted_calls": 5000, "live_sd_datagrams": 5000, "live_service_datagrams": 2000,
+                    "step_counted_calls": 5000, "live_sd_datagrams": 5000, "live_sd_subscription_episodes": 100, "live_service_datagrams": 2000,
                     "twin_runs": 200, "twin_injected_datagrams": 600, "twin_flagclear_runs": 40, "twin_flagclear_messages_inside_a_known_peers_session_sequence": 60,
                     "twin_background_callbacks": 2000, "twin_background_transmissions": 4000}}
 
@@ -216,6 +216,11 @@ PEER_B = ("10.0.0.3", 30490)
 FOREIGN = ("10.0.0.66", 30490)
 SVC_LOCAL = dict(sid=0x2222, iid=1, maj=1, minor=5, eg=(1, 2))
 SVC_REMOTE = dict(sid=0x1111, iid=1, maj=2, minor=0)
+SVC_SIMPLE = 0x2223  # same instance, major version and eventgroups (1, 2) as SVC_LOCAL
+
+
+def local_sid(rng):
+    return rng.choice((SVC_LOCAL["sid"], SVC_SIMPLE))
 
 
 class RecListener:
@@ -261,6 +266,31 @@ def build_put(h, collect=2.0 ** -8):
         eg = C.Eventgroup(service_id=0x3333, instance_id=1, major_version=1, eventgroup_id=7,
                           sockname=("10.0.0.1", 40000), protocol=H.L4Protocols.UDP)
         prot.subscriber.subscribe_eventgroup(eg, PEER_A)
+        # a second announced service is the library's own SimpleService (its subscription handling is on the receive path of
+        # every Subscribe / StopSubscribe / reboot message for it, whatever the bytes were)
+        import someip.service as SV
+
+        class Simple(SV.SimpleService):
+            service_id = SVC_SIMPLE
+            version_major = 1
+            version_minor = 5
+
+            def client_subscribed(self, sub, source):
+                cb.append((h.loop.time(), "simple", "subscribed", sub.id, sub.counter, source))
+                return super().client_subscribed(sub, source)
+
+            def client_unsubscribed(self, sub, source):
+                cb.append((h.loop.time(), "simple", "unsubscribed", sub.id, sub.counter, source))
+                return super().client_unsubscribed(sub, source)
+
+        simple = Simple(instance_id=1)
+        simple.transport = net.RecTransport(h.loop, ("10.0.0.1", 30509))
+        for g in (1, 2):
+            evg = SV.SimpleEventgroup(simple, id=g)
+            evg.values[0x10 + g] = b"v"
+            simple.register_eventgroup(evg)
+        simple.start_announce(prot.announcer)
+        prot._pv_simple = simple
         prot.start()
 
     h.at(0.0, setup)
@@ -283,9 +313,39 @@ def live_sd(ctx, spec, rng):
             escaped.append((i, type(exc).__name__, repr(exc)))
 
     t = 0.5
+    episode = []
     for i in range(spec["n"]):
         r = rng.random()
-        if r < 0.55:
+        if episode:
+            data, desc, ep_src = episode.pop(0)
+        elif r < 0.04:
+            # an episode from one subscriber: a valid Subscribe, the same Subscribe again with one count / index / length field
+            # corrupted (or its option run emptied), then a message that ends the subscription - whatever the corrupted copy
+            # did to the records, ending them must not raise
+            ep_src = rng.choice((PEER_A, PEER_B, FOREIGN))
+            sid, egid, cnt = local_sid(rng), rng.choice((1, 2)), rng.choice((0, 1))
+            ep = [refwire.ep4("10.0.0.3", 4000)]
+            good = net.sd_bytes([net.subscribe(sid, 1, 1, egid, rng.choice((3, 0xFFFFFF)), counter=cnt, o1=ep)], rng.randrange(1, 0x8000), reboot=False)
+            bad = bytearray(net.sd_bytes([net.subscribe(sid, 1, 1, egid, rng.choice((3, 0xFFFFFF)), counter=cnt, o1=ep)], rng.randrange(0x8000, 0x10000), reboot=False))
+            how = rng.choice(("count0", "count2", "index", "field"))
+            if how == "count0":
+                bad[16 + 8 + 3] = 0x00      # number of options of the entry: none
+            elif how == "count2":
+                bad[16 + 8 + 3] = 0x11      # one option in each run
+            elif how == "index":
+                bad[16 + 8 + 1] = rng.choice((1, 0xFF))
+            else:
+                lay = corpus.Layout()
+                lay.buf = bad
+                bad = bytearray(corpus.mutate(rng, lay, "byte")[0])
+            end = rng.choice((
+                net.sd_bytes([net.subscribe(sid, 1, 1, egid, 0, counter=cnt, o1=ep)], 0xFFF0, reboot=False),
+                net.sd_bytes([net.find(0x7777)], 1, reboot=True),
+                net.sd_bytes([net.subscribe(sid, 1, 1, egid, 0, counter=cnt)], 0xFFF0, reboot=False)))
+            episode = [(bytes(bad), ("episode:corrupted-copy", how), ep_src), (end, ("episode:end",), ep_src)]
+            data, desc = good, ("episode:valid-subscribe",)
+            ctx.count("live_sd_subscription_episodes")
+        elif r < 0.55:
             sl, _ = corpus.gen_sd_payload(rng, canonical=rng.random() < 0.5)
             lay, _ = corpus.wrap_sd(rng, sl)
             data, desc = corpus.mutate(rng, lay) if rng.random() < 0.75 else (bytes(lay.buf), ("unmutated",))
@@ -293,8 +353,8 @@ def live_sd(ctx, spec, rng):
             # semantically meaningful SD traffic aimed at the live state, then mutated
             ents = rng.choice((
                 [net.offer(SVC_REMOTE["sid"], 1, 2, 0, ttl=rng.choice((0, 1, 3, 0xFFFFFF)), o1=[refwire.ep4("10.0.0.2", 3000)])],
-                [net.find(SVC_LOCAL["sid"])],
-                [net.subscribe(SVC_LOCAL["sid"], 1, 1, rng.choice((1, 2, 9)), ttl=rng.choice((0, 3, 0xFFFFFF)),
+                [net.find(local_sid(rng))],
+                [net.subscribe(local_sid(rng), 1, 1, rng.choice((1, 2, 9)), ttl=rng.choice((0, 3, 0xFFFFFF)),
                                o1=[refwire.ep4("10.0.0.3", 4000)] * rng.choice((0, 1, 1, 2)))],
             ))
             raw = net.sd_bytes(ents, rng.randrange(1, 0x10000), reboot=rng.random() < 0.5)
@@ -312,6 +372,8 @@ def live_sd(ctx, spec, rng):
             data, desc = gen.rbytes(rng, rng.choice((0, 1, 8, 15, 16, 17, 64, 2048))), ("random",)
         src = rng.choice((PEER_A, PEER_B, FOREIGN, ("2001:db8::5", 30490, 0, 0)))
         mc = rng.random() < 0.3
+        if desc[0].startswith("episode"):
+            src, mc = ep_src, False
         t += 2.0 ** -6
         datagrams.append((data, src, mc, desc))
         h.at(t, inject, i, data, src, mc)
@@ -449,11 +511,11 @@ def background_script(rng, slots=False):
         elif r < 0.7:
             mc = rng.random() < 0.5
             fl, sid = B.next("m" if mc else "u")
-            ev.append((t, net.sd_bytes([net.find(SVC_LOCAL["sid"], rng.choice((1, 0xFFFF)))], sid, reboot=fl), PEER_B, mc))
+            ev.append((t, net.sd_bytes([net.find(local_sid(rng), rng.choice((1, 0xFFFF)))], sid, reboot=fl), PEER_B, mc))
         elif r < 0.92:
             fl, sid = B.next("u")
             ttl = rng.choice((0, 2, 3, 3, 0xFFFFFF))
-            ev.append((t, net.sd_bytes([net.subscribe(SVC_LOCAL["sid"], 1, 1, rng.choice((1, 2)), ttl, counter=rng.choice((0, 1)),
+            ev.append((t, net.sd_bytes([net.subscribe(local_sid(rng), 1, 1, rng.choice((1, 2)), ttl, counter=rng.choice((0, 1)),
                                                       o1=[refwire.ep4("10.0.0.3", 4000)])], sid, reboot=fl), PEER_B, False))
         else:
             B.reboot()
@@ -479,8 +541,8 @@ def rejected_datagram(rng, kind):
     """a datagram the discovery endpoint must reject entirely"""
     # a valid, consequential SD payload: would change state if it were processed
     ents = [net.offer(SVC_REMOTE["sid"], rng.choice((1, 3)), 2, 0, rng.choice((0, 3)), o1=[refwire.ep4("10.0.0.2", 3000)]),
-            net.subscribe(SVC_LOCAL["sid"], 1, 1, 1, rng.choice((0, 3)), o1=[refwire.ep4("10.0.0.3", 4000)]),
-            net.find(SVC_LOCAL["sid"])]
+            net.subscribe(local_sid(rng), 1, 1, 1, rng.choice((0, 3)), o1=[refwire.ep4("10.0.0.3", 4000)]),
+            net.find(local_sid(rng))]
     rng.shuffle(ents)
     sess = rng.choice((1, 1, 2, 0xFFFF, rng.randrange(1, 0x10000)))
     good = net.sd_bytes(ents[: rng.randrange(1, 4)], sess, reboot=rng.random() < 0.7)
@@ -597,7 +659,7 @@ def twin(ctx, spec, rng, idx):
                 ents = [net.offer(SVC_REMOTE["sid"], srng.choice((1, 1, 2)), 2, 0, srng.choice((0, 0, 3, 0xFFFFFF)),
                                   o1=[refwire.ep4("10.0.0.2", 3000)]) for _ in range(srng.randrange(1, 3))]
             else:
-                ents = [net.subscribe(SVC_LOCAL["sid"], 1, 1, srng.choice((1, 2)), srng.choice((0, 0, 3)), counter=srng.choice((0, 1)),
+                ents = [net.subscribe(local_sid(srng), 1, 1, srng.choice((1, 2)), srng.choice((0, 0, 3)), counter=srng.choice((0, 1)),
                                       o1=[refwire.ep4("10.0.0.3", 4000)]) for _ in range(srng.randrange(1, 3))]
                 if srng.random() < 0.3:
                     ents.append(net.find(SVC_LOCAL["sid"]))
